@@ -1,7 +1,8 @@
 import Driver.OpsBits
+import Driver.OpsPackets
 namespace Driver
 
-def handlers : List (String → List SExp → Option String) := [opsBits]
+def handlers : List (String → List SExp → Option String) := [opsBits, opsPackets]
 
 def respond (line : String) : String :=
   match parseLine line with
